@@ -242,7 +242,7 @@ def run_case(case, ctx):
 
     def same(have, wv):
         if exact:
-            return lib.same(R, have, wv, exact=True)
+            return lib.same(R, have, wv, exact=True, trunc=False)
         return close2(lib.have_value(R, have), lib.want_value(R, wv), 1e-8, 1e-12)
 
     def visit(e):
